@@ -1,10 +1,11 @@
 import Acra.Drv.All
+import Acra.Drv.Container
 open Acra.Drv
 
 partial def loop (h : IO.FS.Stream) (out : IO.FS.Stream) : IO Unit := do
   let line ← h.getLine
   if line.isEmpty then return ()
-  out.putStrLn (handleLine allCodecs allFuncs line)
+  out.putStrLn (handleLine (ContainerC.containerCodecs ++ allCodecs) (ContainerC.containerFuncs ++ allFuncs) line)
   loop h out
 
 def main : IO Unit := do
